@@ -20,12 +20,14 @@ Leaves == {Leaf("time", "", 0), Leaf("leeway", "", 0), Leaf("leeway", "", 1), Le
 \* nanosecond difference holds;  c = +-9: the ends of the representable range)
 TimePoints == {<<c, f>> : c \in {0 - 2, 0 - 1, 0, 1, 2}, f \in {0 - 1, 0, 1}} \cup {<<c, 0>> : c \in {0 - 9, 0 - 8, 8, 9}}
 OptTime == {<< >>} \cup {<<t>> : t \in TimePoints}
-OptStr == {<< >>, <<"">>, <<"a">>, <<"ab">>, <<"b">>, <<"ba">>}     \* "ba": same length and same bytes as "ab", other order
+OptStr == {<< >>, <<"">>, <<"a">>, <<"ab">>, <<"b">>, <<"ba">>, <<"A">>}     \* "A": equal to "a" only if case is ignored;  "ba": same length and same bytes as "ab", other order
 Cl(exp, nbf, iss, sub, aud) == [exp |-> exp, nbf |-> nbf, iss |-> iss, sub |-> sub, aud |-> aud]
 \* time-related claims with fixed strings, string claims with fixed times
 ClaimsDomain == {Cl(e, n, <<"a">>, << >>, <<"b">>) : e \in OptTime, n \in OptTime}
                 \cup {Cl(<<<<1, 0>>>>, << >>, i, s, a) : i \in OptStr, s \in OptStr, a \in OptStr}
 EmptyClaims == Cl(<< >>, << >>, << >>, << >>, << >>)
+
+EmptyColl == {[op |-> w, xs |-> << >>] : w \in {"slice", "vec"}}
 
 VARIABLES e, depth, phase
 Init == phase = "claims" /\ e = Leaf("none", "", 0) /\ depth = 0
@@ -34,6 +36,8 @@ Wrap1(x) == {[op |-> w, a |-> x] : w \in {"box", "rc", "arc"}}
 Next ==
   \/ /\ phase = "claims" /\ phase' = "leaf" /\ UNCHANGED <<e, depth>>
   \/ /\ phase = "leaf" /\ \E l \in Leaves : e' = l
+     /\ depth' = 1 /\ phase' = "grow"
+  \/ /\ phase = "leaf" /\ \E x \in EmptyColl : e' = x      \* a list of no validators at all: accepts everything
      /\ depth' = 1 /\ phase' = "grow"
   \/ /\ phase = "grow" /\ depth < MaxDepth
      /\ depth' = depth + 1 /\ phase' = "grow"
@@ -47,8 +51,6 @@ Next ==
   \/ /\ phase = "grow"            \* map only at the root
      /\ \E sel \in {"x", "y"} : e' = [op |-> "map", sel |-> sel, a |-> e]
      /\ phase' = "done" /\ UNCHANGED depth
-
-EmptyColl == {[op |-> w, xs |-> << >>] : w \in {"slice", "vec"}}
 
 \* ---- laws, checked for every generated expression against the whole claims domain
 Laws ==
